@@ -20,18 +20,21 @@ AI = z3.ArraySort(I, I)
 AR = z3.ArraySort(I, R)
 psum_i = z3.Function('psum_i', AI, I, I)
 psum_r = z3.Function('psum_r', AR, I, R)
+integral = z3.Function('integral', R, B)   # "x is an integer": kept uninterpreted (no mixed int/real reasoning)
+rdiv = z3.Function('rdiv', R, R, R)     # real division kept uninterpreted (no nonlinear arithmetic in the queries)
 
 ASSUMED.update({
     'np.ceil': 'numpy.ceil(a): elementwise; for non-negative integer-valued entries it is the identity; the result is a new array',
     'ndarray.astype(int64)': 'a.astype(numpy.int64) of an array holding integral values yields those integers (new array)',
-    'ndarray.sum': 'a.sum() is the sum of the elements (ghost prefix sums psum)',
+    'ndarray.sum': 'a.sum() is the sum of the elements (ghost prefix sums psum); the sum of a slice a[lo:hi] is psum(a, hi) - psum(a, lo)',
     'ndarray.sort': 'a.sort() sorts in place: the result is ascending and a permutation of the old contents; for pairwise '
                     'distinct entries this is strictly increasing and keeps every range bound',
     'rng.choice': 'Generator.choice(N, n, replace=False, shuffle=False) returns n pairwise distinct integers in [0, N) '
                   '(it needs 0 <= n <= N)',
     'rng.multinomial': 'Generator.multinomial(n, p) returns len(p) non-negative integers summing to n that are 0 wherever p is 0 '
                        '(p must be defined: no division by a zero total)',
-    'array/scalar': 'elementwise division of an array by a scalar',
+    'array/scalar': 'elementwise division of an array by a scalar; real division x/d is an uninterpreted function rdiv with '
+                    'the single axiom  d != 0  =>  (x/d == 0  <=>  x == 0)',
 })
 
 
@@ -41,8 +44,8 @@ class SubsampleWorld(World):
         if cls == 'RNG':
             # the generator's methods are external functions with ghost call logs (arguments and results by value)
             return st.alloc(Obj('RNG', {
-                'multinomial': self.make_callback(eng, st, name + '_multinomial', 'Callback[Int,Arr[Real]]->Arr[Int]=len1'),
-                'choice': self.make_callback(eng, st, name + '_choice', 'Callback[Int,Int]->Arr[Int]')}))
+                '_log_multinomial': self.make_callback(eng, st, name + '_multinomial', 'Callback[Int,Arr[Real]]->Arr[Int]=len1'),
+                '_log_choice': self.make_callback(eng, st, name + '_choice', 'Callback[Int,Int]->Arr[Int]')}))
         raise EngineError('no object model for class %s' % cls)
 
     def call_writes(self, eng, st, call):
@@ -73,10 +76,12 @@ class SubsampleWorld(World):
         e = fresh('e', I)
         st.assume(z3.ForAll([a], psum_i(a, 0) == 0, patterns=[psum_i(a, 0)]),
                   z3.ForAll([a, e], z3.Implies(e >= 0, psum_i(a, e + 1) == psum_i(a, e) + a[e]),
-                            patterns=[psum_i(a, e + 1), z3.MultiPattern(psum_i(a, e), a[e])]),
+                            patterns=[z3.MultiPattern(psum_i(a, e), a[e])]),
                   z3.ForAll([b], psum_r(b, 0) == 0, patterns=[psum_r(b, 0)]),
                   z3.ForAll([b, e], z3.Implies(e >= 0, psum_r(b, e + 1) == psum_r(b, e) + b[e]),
-                            patterns=[psum_r(b, e + 1), z3.MultiPattern(psum_r(b, e), b[e])]))
+                            patterns=[z3.MultiPattern(psum_r(b, e), b[e])]))
+        x, d = fresh('x', R), fresh('d', R)
+        st.assume(z3.ForAll([x, d], z3.Implies(d != 0, (rdiv(x, d) == 0) == (x == 0)), patterns=[rdiv(x, d)]))
         return {}
 
     def global_name(self, eng, st, n):
@@ -90,8 +95,10 @@ class SubsampleWorld(World):
             a = eng.as_arr(st, eng.sev(e.args[0], st, bound))
             k = to_int(eng.sev(e.args[1], st, bound))
             return VInt(psum_i(a[1], k)) if a[0] == 'int' else VReal(psum_r(a[1], k))
+        if n == 'rdiv':
+            return VReal(rdiv(to_real(eng.sev(e.args[0], st, bound)), to_real(eng.sev(e.args[1], st, bound))))
         if n == 'is_int':
-            return VBool(z3.IsInt(to_real(eng.sev(e.args[0], st, bound))))
+            return VBool(integral(to_real(eng.sev(e.args[0], st, bound))))
         return super().spec_call(eng, st, n, e, bound)
 
     def call_builtin(self, eng, st, name, args, kwargs, node, starv=None, dstar=None):
@@ -101,7 +108,8 @@ class SubsampleWorld(World):
             st = st.copy()
             out = fresh('ceil', AR)
             k = fresh('k', I)
-            st.assume(z3.ForAll([k], z3.And(out[k] >= src.a[k], out[k] < src.a[k] + 1, z3.IsInt(out[k])), patterns=[out[k]]))
+            st.assume(z3.ForAll([k], z3.And(out[k] >= src.a[k], out[k] < src.a[k] + 1, integral(out[k]),
+                                            z3.Implies(integral(src.a[k]), out[k] == src.a[k])), patterns=[out[k]]))
             return [Result(st, st.alloc(Arr('real', out, src.n, 'ndarray')))]
         return super().call_builtin(eng, st, name, args, kwargs, node, starv, dstar)
 
@@ -115,13 +123,18 @@ class SubsampleWorld(World):
             out = fresh('asint', AI)
             k = fresh('k', I)
             # truncation towards zero; exact for integral values
-            st.assume(z3.ForAll([k], z3.Implies(z3.IsInt(n.a[k]), z3.ToReal(out[k]) == n.a[k]), patterns=[out[k]]))
+            st.assume(z3.ForAll([k], z3.Implies(integral(n.a[k]), z3.ToReal(out[k]) == n.a[k]), patterns=[out[k]]))
             return [Result(st, st.alloc(Arr('int', out, n.n, 'ndarray')))]
         if name == 'sum':
             self.used.add('ndarray.sum')
-            if n.elem == 'int':
-                return [Result(st, VInt(psum_i(n.a, n.n)))]
-            return [Result(st, VReal(psum_r(n.a, n.n)))]
+            ps = psum_i if n.elem == 'int' else psum_r
+            mkv = VInt if n.elem == 'int' else VReal
+            prov = getattr(n, 'slice_of', None)
+            if prov is not None:
+                # the sum of a slice is a difference of prefix sums of the array it was taken from
+                src, lo, ln = prov
+                return [Result(st, mkv(ps(src, lo + ln) - ps(src, lo)))]
+            return [Result(st, mkv(ps(n.a, n.n)))]
         if name == 'sort':
             self.used.add('ndarray.sort')
             # needs: pairwise distinct entries (as delivered by rng.choice without replacement) - recorded on the node
@@ -149,7 +162,7 @@ class SubsampleWorld(World):
             if not (kwargs.get('replace') is not None and z3.is_false(z3.simplify(eng.truth(st, kwargs['replace'])))):
                 raise EngineError('%s:%d: rng.choice with replacement is not modelled' % (eng.rel, line))
             eng.oblige(st, 'call-pre/rng.choice.0<=n<=N', z3.And(0 <= k, k <= N), line)
-            (r,) = self.call_callback(eng, st, n.fields['choice'], args[:2], {}, node)
+            (r,) = self.call_callback(eng, st, n.fields['_log_choice'], args[:2], {}, node)
             st2, ref = r.st, r.val
             nd = st2.node(ref)
             out = nd.a
@@ -165,13 +178,13 @@ class SubsampleWorld(World):
             k = to_int(args[0])
             p = st.node(args[1])
             eng.oblige(st, 'call-pre/rng.multinomial.n>=0', k >= 0, line)
-            (r,) = self.call_callback(eng, st, n.fields['multinomial'], args[:2], {}, node)
+            (r,) = self.call_callback(eng, st, n.fields['_log_multinomial'], args[:2], {}, node)
             st2, ref = r.st, r.val
             out = st2.node(ref).a
             i = fresh('i', I)
             st2.assume(z3.ForAll([i], z3.Implies(z3.And(0 <= i, i < p.n), z3.And(out[i] >= 0, z3.Implies(p.a[i] == 0, out[i] == 0))),
                                  patterns=[out[i]]),
-                       psum_i(out, p.n) == k)
+                       psum_i(out, st2.node(ref).n) == k)
             return [Result(st2, ref)]
         raise EngineError('%s:%d: rng.%s has no assumed contract' % (eng.rel, line, name))
 
@@ -188,7 +201,7 @@ def _arr_scalar_binop(self, op, a, b, st=None):
         k = fresh('k', I)
         d = to_real(b)
         src = (lambda k: z3.ToReal(n.a[k])) if n.elem == 'int' else (lambda k: n.a[k])
-        st.assume(z3.ForAll([k], out[k] * d == src(k), patterns=[out[k]]))
+        st.assume(z3.ForAll([k], out[k] == rdiv(src(k), d), patterns=[out[k]]))
         return st.alloc(Arr('real', out, n.n, 'ndarray'))
     return _orig_binop(self, op, a, b, st)
 
@@ -215,7 +228,15 @@ contract(F, 'subsample', tier='P', props=['C12'],
 OI = "old(indptr)"
 OD = "old(data)"
 TOT = "(psum(%s, %s[{i} + 1]) - psum(%s, %s[{i}]))" % (OD, OI, OD, OI)      # total of slice i at entry
-MULT = "rng.multinomial"
+MULT = "rng._log_multinomial"
+INSL = "%s[k] <= q and q < %s[k + 1]" % (OI, OI)
+# the k-th draw is made over (count / slice total), it replaces slice k, and zero counts stay zero
+PVALS = ("all(implies(%s, callarg(%s, k, 1)[q - %s[k]] == rdiv(%s[q], %s)) for k in range(0, {hi}) for q in ints() "
+         "if trig(indptr[k], %s[q]))" % (INSL, MULT, OI, OD, TOT.format(i='k'), OD))
+DRAWN = ("all(implies(%s, {d}[q] == callret(%s, k)[q - %s[k]]) for k in range(0, {hi}) for q in ints() "
+         "if trig(indptr[k], {d}[q]))" % (INSL, MULT, OI))
+ZERO = ("all(implies(%s and %s[q] == 0, {d}[q] == 0) for k in range(0, {hi}) for q in ints() if trig(indptr[k], {d}[q]))"
+        % (INSL, OD))
 
 contract(F, '_subsample_with_replacement', tier='P', props=['C12'],
     types={'data': 'Arr[Real]', 'indptr': 'Arr[Int]', 'n': 'Int', 'rng': 'Obj:RNG'},
@@ -229,13 +250,11 @@ contract(F, '_subsample_with_replacement', tier='P', props=['C12'],
         "ncalls(%s) == %s" % (MULT, M),
         # slice i is replaced by the i-th multinomial draw of n over (counts / slice total) ...
         "all(callarg(%s, i, 0) == n and len(callarg(%s, i, 1)) == %s[i + 1] - %s[i] for i in range(0, %s))" % (MULT, MULT, OI, OI, M),
-        "all(callarg(%s, i, 1)[t] * %s == %s[%s[i] + t] for i in range(0, %s) for t in range(%s[i + 1] - %s[i]))"
-        % (MULT, TOT.format(i='i'), OD, OI, M, OI, OI),
-        "all(data[%s[i] + t] == callret(%s, i)[t] for i in range(0, %s) for t in range(%s[i + 1] - %s[i]))" % (OI, MULT, M, OI, OI),
+        PVALS.format(hi=M), DRAWN.format(hi=M, d='data'),
         # ... which (numpy axiom) sums to n and is zero wherever the count was zero
-        "all(psum(callret(%s, i), %s[i + 1] - %s[i]) == n for i in range(0, %s))" % (MULT, OI, OI, M),
-        "all(implies(%s[%s[i] + t] == 0, data[%s[i] + t] == 0) for i in range(0, %s) for t in range(%s[i + 1] - %s[i]))"
-        % (OD, OI, OI, M, OI, OI),
+        "all(len(callret(%s, i)) == %s[i + 1] - %s[i] and psum(callret(%s, i), len(callret(%s, i))) == n for i in range(0, %s))"
+        % (MULT, OI, OI, MULT, MULT, M),
+        ZERO.format(hi=M, d='data'),
         "len(data) == len(%s)" % OD,
         "all(implies(q < %s[0] or q >= %s[%s], data[q] == %s[q]) for q in ints())" % (OI, OI, M, OD),
     ],
@@ -243,17 +262,162 @@ contract(F, '_subsample_with_replacement', tier='P', props=['C12'],
     after_assign={
         # prefix sums of ceil(data) are those of data (counts are integral)
         'data_ceil': [dict(name='ceil-is-identity', var='e', base='0', upto='len(data)',
-                           stmt='psum(data_ceil, e) == psum(data, e)')],
+                           stmt='psum(data_ceil, e) == psum(data, e)', mention=['data_ceil[e]', 'data[e]'])],
+        # the total and the probability vector of the current slice
+        'counts_sum': ["counts_sum == %s and counts_sum > 0" % TOT.format(i='i')],
+        'pvals': ["len(pvals) == indptr[i + 1] - indptr[i]"],
     },
+    after_assign_extra=None,
     loops={0: dict(header='for i in range(indptr.shape[0] - 1)', invariant=[
         "ncalls(%s) == i and len(data) == len(%s)" % (MULT, OD),
         "all(callarg(%s, k, 0) == n and len(callarg(%s, k, 1)) == %s[k + 1] - %s[k] for k in range(0, i))" % (MULT, MULT, OI, OI),
-        "all(callarg(%s, k, 1)[t] * %s == %s[%s[k] + t] for k in range(0, i) for t in range(%s[k + 1] - %s[k]))"
-        % (MULT, TOT.format(i='k'), OD, OI, OI, OI),
-        "all(data[%s[k] + t] == callret(%s, k)[t] for k in range(0, i) for t in range(%s[k + 1] - %s[k]))" % (OI, MULT, OI, OI),
-        "all(psum(callret(%s, k), %s[k + 1] - %s[k]) == n for k in range(0, i))" % (MULT, OI, OI),
-        "all(implies(%s[%s[k] + t] == 0, data[%s[k] + t] == 0) for k in range(0, i) for t in range(%s[k + 1] - %s[k]))"
-        % (OD, OI, OI, OI, OI),
+        PVALS.format(hi='i'), DRAWN.format(hi='i', d='data'),
+        "all(len(callret(%s, k)) == %s[k + 1] - %s[k] and psum(callret(%s, k), len(callret(%s, k))) == n for k in range(0, i))"
+        % (MULT, OI, OI, MULT, MULT),
+        ZERO.format(hi='i', d='data'),
         "all(implies(q < %s[0] or q >= %s[i], data[q] == %s[q]) for q in ints())" % (OI, OI, OD),
         "all(data_ceil[q] == %s[q] for q in range(0, len(data)))" % OD,
     ])})
+
+
+# ---------------------------------------------------------------------------
+# without replacement
+# ---------------------------------------------------------------------------
+P = "psum(intdata, {e})"
+CH = "rng._log_choice"
+C_GHOST = {'c': dict(args=['int'], ret='int', requires=[
+    # a split point exists for every x because the draws are strictly increasing (proved where c is introduced)
+    "all(implies(0 <= i and i < j and j < n, permuted[i] < permuted[j]) for i in ints() for j in ints() "
+    "if trig(permuted[i], permuted[j]))", "len(permuted) == n"], axioms=[
+    # c(x) = number of (sorted, distinct) draws below x
+    "all(0 <= c(x) and c(x) <= n for x in ints() if trig(c(x)))",
+    "all(implies(0 <= j and j < c(x), permuted[j] < x) for x in ints() for j in ints() if trig(c(x), permuted[j]))",
+    "all(implies(c(x) <= j and j < n, permuted[j] >= x) for x in ints() for j in ints() if trig(c(x), permuted[j]))",
+])}
+SLICE_UNTOUCHED = "all(implies(q < start or q >= start + el, data[q] == at('loop1', data)[q]) for q in ints())"
+WRITTEN = ("all(implies(start <= q and q < start + el, data[q] == real(c(%s) - c(%s))) for q in ints() if trig(data[q]))"
+           % (P.format(e='q - start + 1'), P.format(e='q - start')))
+
+PE = "psum(intdata, {e})"
+NEWSUM = "(psum(data, %s[{k} + 1]) - psum(data, %s[{k}]))" % (OI, OI)
+ENOUGH_SUM = ("all(implies(%s >= n, %s == n) for k in range(0, {hi}) if trig(indptr[k]))"
+              % (TOT.format(i='k'), NEWSUM.format(k='k')))
+ENOUGH_BOUNDS = ("all(implies(%s and %s >= n, 0 <= data[q] and data[q] <= %s[q] and is_int(data[q])) "
+                 "for k in range(0, {hi}) for q in ints() if trig(indptr[k], data[q]))" % (INSL, TOT.format(i='k'), OD))
+WHEN = "counts_sum >= n"
+
+contract(F, '_subsample_without_replacement', tier='P', props=['C12'],
+    types={'data': 'Arr[Real]', 'indptr': 'Arr[Int]', 'n': 'Int', 'rng': 'Obj:RNG'},
+    requires=WF + ["n >= 1"],
+    ensures=[
+        "len(data) == len(%s)" % OD,
+        # nothing outside the slices is written
+        "all(implies(q < %s[0] or q >= %s[%s], data[q] == %s[q]) for q in ints())" % (OI, OI, M, OD),
+        # a vector with fewer than n counts is zeroed (and later dropped by Table.subsample)
+        "all(implies(%s and %s < n, data[q] == 0) for k in range(0, %s) for q in ints() if trig(indptr[k], data[q]))"
+        % (INSL, TOT.format(i='k'), M),
+        # a vector with at least n counts sums to exactly n afterwards ...
+        ENOUGH_SUM.format(hi=M),
+        # ... and every entry is a non-negative integer not exceeding the original count
+        ENOUGH_BOUNDS.format(hi=M),
+    ],
+    modifies=['data[*]'],
+    after_assign={
+        'intdata': [
+            # the integer copy of the slice holds the (non-negative) counts of the vector
+            "len(intdata) == end - start and all(implies(0 <= e and e < end - start, intdata[e] >= 0 and "
+            "real(intdata[e]) == %s[start + e]) for e in ints() if trig(intdata[e]))" % OD,
+            dict(name='slice-total', var='e', base='0', upto='end - start',
+                 stmt="real(psum(intdata, e)) == psum(%s, start + e) - psum(%s, start)" % (OD, OD),
+                 mention=['intdata[e]', '%s[start + e]' % OD])],
+        'counts_sum': ["real(counts_sum) == %s" % TOT.format(i='i')],
+    },
+    loops={
+        0: dict(header='for i in range(indptr.shape[0] - 1)', invariant=[
+            "len(data) == len(%s)" % OD,
+            "all(implies(q < %s[0] or q >= %s[i], data[q] == %s[q]) for q in ints())" % (OI, OI, OD),
+            "all(implies(%s and %s < n, data[q] == 0) for k in range(0, i) for q in ints() if trig(indptr[k], data[q]))"
+            % (INSL, TOT.format(i='k')),
+            ENOUGH_SUM.format(hi='i'), ENOUGH_BOUNDS.format(hi='i'),
+        ], body_end=[
+            # the prefix sums below the current slice are those at the start of the iteration (only the slice is written)
+            dict(name='prefix-unchanged', var='h', base='0', upto='start',
+                 stmt="psum(data, h) == psum(at('loop0-iter', data), h)", mention=['data[h]', "at('loop0-iter', data)[h]"]),
+            dict(when=WHEN, fact="permuted[0] >= 0 and permuted[n - 1] < counts_sum and c(0) == 0 and c(counts_sum) == n "
+                                 "and c(%s) == n" % PE.format(e='el + 1')),
+            dict(when=WHEN, name='P-monotone-tail', var='e', base='el + 1', upto='length',
+                 stmt="%s >= %s" % (PE.format(e='e'), PE.format(e='el + 1')), mention=['intdata[e]']),
+            dict(when=WHEN, fact="all(implies(start <= q and q < end, data[q] == real(c(%s) - c(%s))) "
+                                 "for q in ints() if trig(data[q]))" % (PE.format(e='q - start + 1'), PE.format(e='q - start'))),
+            dict(when=WHEN, name='telescope', var='e', base='0', upto='length',
+                 stmt="psum(data, start + e) - psum(data, start) == real(c(%s) - c(0))" % PE.format(e='e'),
+                 mention=['data[start + e]', 'intdata[e]']),
+            dict(when=WHEN, fact="psum(data, end) - psum(data, start) == n"),
+            dict(when=WHEN, assume="all(is_int(real(c(%s) - c(%s))) for q in ints() if trig(data[q]))"
+                 % (PE.format(e='q - start + 1'), PE.format(e='q - start')),
+                 why='integral(x) holds for every integer x (instance for the differences of draw counts)'),
+            dict(when=WHEN, fact="all(implies(start <= q and q < end, 0 <= data[q] and data[q] <= %s[q] and is_int(data[q])) "
+                                 "for q in ints() if trig(data[q]))" % OD),
+        ]),
+        1: dict(header='for idx in range(n)', ghost=C_GHOST,
+                hide=['loop0/inv2', 'loop0/inv3', 'loop0/inv4', 'lemma/gaps', 'lemma/count-monotone', 'lemma/count-gap', 'lemma/count-le-width'], lemmas=[
+            dict(name='count-monotone', fact="all(implies(a <= b, implies(c(b) < n, permuted[c(b)] >= b) and c(a) <= c(b)) "
+                 "for a in ints() for b in ints() if trig(c(a), c(b)))"),
+            # strictly increasing integers are at least one apart ...
+            dict(name='gaps', var='k', base='0', upto='n - 1',
+                 stmt="all(implies(0 <= j and j <= k, permuted[k] - permuted[j] >= k - j) for j in ints() if trig(permuted[j]))",
+                 mention=['permuted[k]', 'permuted[k + 1]']),
+            # ... hence at most b - a draws lie in [a, b)
+            dict(name='count-gap', fact="all(implies(a <= b and c(b) - c(a) >= 1, permuted[c(b) - 1] - permuted[c(a)] >= c(b) - 1 - c(a)) "
+                 "for a in ints() for b in ints() if trig(c(a), c(b)))"),
+            dict(name='count-le-width', fact="all(implies(a <= b, 0 <= c(b) - c(a) and c(b) - c(a) <= b - a) "
+                 "for a in ints() for b in ints() if trig(c(a), c(b)))"),
+        ], invariant=[
+            "0 <= el and el < length and length == end - start and len(data) == len(%s)" % OD,
+            "count_el + count_rem == %s" % P.format(e='el + 1'),
+            "implies(idx == 0, count_el == 0 and el == 0 and el_cnt == 0)",
+            "implies(idx >= 1, count_el == permuted[idx - 1] and %s <= permuted[idx - 1] and permuted[idx - 1] < %s)"
+            % (P.format(e='el'), P.format(e='el + 1')),
+            "%s <= count_el" % P.format(e='el'),
+            "el_cnt == idx - c(%s)" % P.format(e='el'),
+            WRITTEN, SLICE_UNTOUCHED,
+        ]),
+        2: dict(header='while perm_count_el - count_el >= count_rem', decreases='length - el',
+                # the draw-count ghost plays no role for the bookkeeping invariants 0-3
+                hide_for={j: ['ghost/c', 'loop1/inv6', 'loop2/inv5', 'loop1/inv7', 'loop2/inv6', 'loop1/inv5', 'loop2/inv4',
+                              'lemma/slice-total', 'loop0/inv1'] for j in (0, 1, 2, 3)}, invariant=[
+            "0 <= el and el < length and len(data) == len(%s)" % OD,
+            "count_el + count_rem == %s" % P.format(e='el + 1'),
+            "%s <= count_el and count_el <= perm_count_el" % P.format(e='el'),
+            # (the conjunct about intdata[el] names the term that unfolds the prefix sum at el)
+            "implies(idx >= 1, permuted[idx - 1] < %s) and intdata[el] >= 0" % P.format(e='el + 1'),
+            "el_cnt == idx - c(%s)" % P.format(e='el'),
+            WRITTEN, SLICE_UNTOUCHED,
+        ]),
+    })
+
+
+# ---------------------------------------------------------------------------
+# the dispatcher: what Table.subsample relies on, stated on the matrix object
+# ---------------------------------------------------------------------------
+import re as _re
+from pyvc.prove import REGISTRY as _REG
+
+
+def _on_arr(expr):
+    expr = _re.sub(r'\bindptr\b', 'arr.indptr', expr)
+    return _re.sub(r'(?<![\w.])data\b', 'arr.data', expr)
+
+
+_wr = _REG[F + '::_subsample_with_replacement']
+_wor = _REG[F + '::_subsample_without_replacement']
+del _REG[F + '::subsample']
+contract(F, 'subsample', tier='P', props=['C12'],
+    types={'arr': 'CSdata', 'n': 'Int', 'with_replacement': 'Bool', 'rng': 'Obj:RNG'},
+    requires=[_on_arr(r) for r in WF] + [
+        "implies(with_replacement, %s)" % ' and '.join('(%s)' % _on_arr(r) for r in _wr.requires[len(WF):]),
+        "implies(not with_replacement, n >= 1)"],
+    ensures=["implies(with_replacement, %s)" % _on_arr(e) for e in _wr.ensures] +
+            ["implies(not with_replacement, %s)" % _on_arr(e) for e in _wor.ensures] +
+            ["arr.indptr is oldref(arr.indptr) and arr.data is oldref(arr.data)"],
+    modifies=['arr.data[*]'])
